@@ -96,6 +96,17 @@ def main(tier, replay=None):
         "cited line lies within the lines that declaration (or, for scope-level violations, that scope) spans",
         "line numbers of declarations are reported by the harness's text renderer (cross-checked by C20)",
     ]
+    # design level: TLC writes every small program over {A, B} and checks the machine against the
+    # declarative restatement (Visible / Valid) computed from positions in the finished text
+    from .. import tlc as _tlc
+    from . import designlevel as _dl
+    _cfg = open(common.SPEC + "/MC_Compiler.cfg").read().replace("MaxDecls = 4", "MaxDecls = %d" % (5 if tier == "quick" else 7))
+    _r = _dl.run_cfg("MC_Compiler", _cfg, timeout=3000)
+    _tlc.machinery_check(_r, "MC_Compiler")
+    rep.add_tlc(_r, "design:every single-file program of <= %d declarations over {A,B}: machine vs declarative Visible/Valid"
+                % (5 if tier == "quick" else 7))
+    if not _r.ok:
+        raise common.MachineryError("MC_Compiler violated: %s" % _r.violated)
     nbase = 120 if tier == "quick" else 2500
     per = 8 if tier == "quick" else 10
     traces, metas = [], []
